@@ -33,11 +33,16 @@ pub fn replay_stores<V: Value>(endian: Endian, backing: Option<RC<backing::Memor
         /*@perm*/ forall|x: u64| (#[trigger] m.perm(x)) == bk_perm(m.bk(), x as int),
 {
     let mut m: Memory<V> = Memory::new(endian);
+    let ghost m0 = m;
     m.set_backing(backing);
     let ghost all = ws@;
     proof {
-        lemma_cells_empty(m.pages@);
-        assert forall|x: u64| #[trigger] m.own(x) == after_stores(endian, all.take(0), x) by {}
+        assert forall|x: u64| #[trigger] m.own(x) == after_stores(endian, all.take(0), x) by {
+            assert(m0.full(x as int) is None);
+        }
+        assert forall|x: u64| (#[trigger] m.perm(x)) == bk_perm(m.bk(), x as int) by {
+            assert(m0.perm(x) is None);
+        }
     }
     for w in it: ws
         invariant
